@@ -36,7 +36,7 @@ type SimCase struct {
 	Subcores int       `json:"subcores"`
 	A100     bool      `json:"a100"` // use platform.A100PlatformBuilder (1 device x 108 SMs x 4 sub-cores) instead
 	FreqHz   float64   `json:"freq_hz"`
-	ViaFiles bool      `json:"via_files"` // trace goes through files + tracereader + benchmark builder; else kernels are handed to the driver in memory
+	ViaFiles bool      `json:"via_files"`         // trace goes through files + tracereader + benchmark builder; else kernels are handed to the driver in memory
 	Memcpys  []int     `json:"memcpys,omitempty"` // via files: number of Memcpy lines before kernel i (last entry: after the last kernel)
 	Kernels  [][][]int `json:"kernels"`
 }
@@ -47,6 +47,12 @@ func genSimCase(t *rapid.T) SimCase {
 	c.SMs = rapid.IntRange(1, 8).Draw(t, "sms")
 	c.Subcores = rapid.IntRange(1, 4).Draw(t, "subcores")
 	c.A100 = rapid.IntRange(0, 39).Draw(t, "a100") == 39
+	if rapid.IntRange(0, 9).Draw(t, "wide") == 9 {
+		// beyond the 4-entry port buffers: more devices / SMs / sub-cores than one buffer holds completion messages
+		c.Devices = rapid.IntRange(1, 6).Draw(t, "wdevices")
+		c.SMs = rapid.IntRange(1, 16).Draw(t, "wsms")
+		c.Subcores = rapid.IntRange(1, 8).Draw(t, "wsubcores")
+	}
 	c.FreqHz = rapid.SampledFrom([]float64{1, 1e9, 1e9, 7e8}).Draw(t, "freq")
 	c.ViaFiles = rapid.Bool().Draw(t, "viafiles")
 	nk := rapid.SampledFrom([]int{1, 1, 2, 2, 3, 4, 5}).Draw(t, "kernels")
@@ -424,8 +430,13 @@ func RunSim(c SimCase) (res stats.Result) {
 			res.Labels = append(res.Labels, l)
 		}
 	}
-	lab(true, fmt.Sprintf("sim:devices=%d", c.Devices))
+	if c.Devices <= 3 {
+		lab(true, fmt.Sprintf("sim:devices=%d", c.Devices))
+	} else {
+		lab(true, "sim:devices>3")
+	}
 	lab(c.A100, "sim:a100-builder")
+	lab(!c.A100 && (c.Devices > 4 || c.SMs > 4 || c.Subcores > 4), "sim:more-units-than-port-buffer-slots")
 	lab(c.ViaFiles, "sim:via-files")
 	lab(!c.ViaFiles, "sim:in-memory")
 	lab(ragged, "sim:ragged")
